@@ -4,6 +4,7 @@ import (
 	"context"
 	"fmt"
 	"math/rand/v2"
+	"strings"
 	"time"
 
 	"verif/harness/lib"
@@ -97,29 +98,43 @@ func (rg *rig) makeObject(rng *rand.Rand, cs caseSpec, tag string) *object {
 			size = int(rg.maxProxy) + 1
 		}
 	}
-	switch cs.kind {
-	case cache.CAS:
-		return newCAS(rng, rg.storage, size, tag, cs.e.needMulti)
-	case cache.AC:
-		if size > 200*lib.KiB {
-			size = 200 * lib.KiB
-		}
-		if cs.e.oversize {
-			size = int(rg.maxProxy) + 40 + rng.IntN(3000)
-		}
-		return newAR(rng, cache.AC, size, tag)
-	default:
-		if rg.family == "grpc" {
-			// the gRPC proxy moves RAW entries as ActionResults
-			if size > 200*lib.KiB && !cs.e.oversize {
-				size = 200 * lib.KiB
+	arSize := size
+	if arSize > 150*lib.KiB {
+		arSize = 150 * lib.KiB
+	}
+	if cs.e.oversize {
+		arSize = int(rg.maxProxy) + 40 + rng.IntN(3000)
+	}
+	return rg.fresh(func() *object {
+		switch cs.kind {
+		case cache.CAS:
+			return newCAS(rng, rg.storage, size, tag, cs.e.needMulti)
+		case cache.AC:
+			return newAR(rng, cache.AC, arSize, tag)
+		default:
+			if rg.family == "grpc" {
+				// the gRPC proxy moves RAW entries as ActionResults
+				return newAR(rng, cache.RAW, arSize, tag)
 			}
-			if cs.e.oversize {
-				size = int(rg.maxProxy) + 40 + rng.IntN(3000)
-			}
-			return newAR(rng, cache.RAW, size, tag)
+			return newRaw(rng, size, tag)
 		}
-		return newRaw(rng, size, tag)
+	})
+}
+
+// fresh draws objects until one has a key this rig has not used before (tiny
+// blobs have few possible values).
+func (rg *rig) fresh(gen func() *object) *object {
+	for {
+		o := gen()
+		rg.mu.Lock()
+		used := rg.used[o.hash]
+		if !used {
+			rg.used[o.hash] = true
+		}
+		rg.mu.Unlock()
+		if !used {
+			return o
+		}
 	}
 }
 
@@ -137,6 +152,9 @@ func (rg *rig) readCase(cs caseSpec, id string, rng *rand.Rand) {
 		p.target = cs.op.target
 	}
 	expect := p.expect(cs.op.known)
+	if expect == expLies {
+		rg.noteLie(o.hash)
+	}
 	det := &readDetail{Rig: rg.name, Case: id, Op: cs.op.name, Plan: p.label, Object: o.String(), Expect: expect}
 	log := func(f string, a ...any) { det.History = append(det.History, fmt.Sprintf(f, a...)) }
 
@@ -265,6 +283,12 @@ func (rg *rig) judge(p *op, o *object, fault, phase string, out outcome, expect 
 		correct, why = verifyHit(p, o, out, rg.be.sizeAware(o.kind))
 	}
 	switch {
+	case out.class == "error" && expect == expHit && p.target == "contains" && strings.Contains(out.detail, `bad Content-Length "-1"`):
+		// Its own finding: the front end answers HEAD with "Content-Length: -1"
+		// when the backend holds the entry but cannot state its size.
+		r.Violation("C12:head:backend-size-unknown:invalid-content-length-header",
+			fmt.Sprintf("%s: HEAD for an entry that only the backend holds (healthy, but unable to state the logical size) is answered with the invalid header \"Content-Length: -1\"; HTTP clients reject the response (%s)",
+				rg.name, clip(out.detail, 160)), det)
 	case out.class == "hit" && !correct:
 		r.Violation(rg.key(p.name, fault, phase, "hit-with-wrong-content"),
 			fmt.Sprintf("%s: %s answered a hit that is not the backend's object (%s; fault %s): %s", rg.name, p.name, phase, fault, why), det)
